@@ -107,6 +107,21 @@ pub fn analyse(dic: &Arc<JapaneseDictionary>, text: &str, mode: Mode) -> Ana {
     }
 }
 
+/// which variant of `JoinNumericPlugin::rewrite_gen` the harness is built against (Lean `NVariant`):
+/// `fix` = a COMMA/POINT error restarts the run only if the flag was still set (repair of F2),
+/// `cur` = the loop of the pinned tree.  Probed in the source of the linked sudachi crate.
+fn numeric_variant() -> &'static str {
+    static V: std::sync::OnceLock<&'static str> = std::sync::OnceLock::new();
+    *V.get_or_init(|| {
+        let p = format!("{}/src/plugin/path_rewrite/join_numeric/mod.rs", crate::c07::repo_sudachi_dir());
+        match std::fs::read_to_string(p) {
+            // whitespace-insensitive: rustfmt may break the condition over several lines
+            Ok(s) if s.split_whitespace().collect::<Vec<_>>().join(" ").contains("&& comma_as_digit {") => "fix",
+            _ => "cur",
+        }
+    })
+}
+
 // ------------------------------------------------------------------------------------------------
 // dictionaries
 
@@ -539,6 +554,7 @@ pub fn run(run: &mut Run) {
 plugin; plugin stacks N, K, NK, KN, NK+1 with enableNormalize in {true,false}, minLength 0..4, three OOV POS; non-trivial = the rewritten path \
 differs from the un-rewritten path; distinct by payload".into();
     let n = run.opts.count;
+    run.bump(&format!("numeric-loop-variant:{}", numeric_variant()));
     let mut cached: Option<(usize, Option<usize>, Result<World, String>)> = None;
     // every non-terminating analysis leaves a spinning worker thread behind: give up early
     let mut hangs = 0usize;
@@ -614,7 +630,7 @@ differs from the un-rewritten path; distinct by payload".into();
                 run.bump("parser-hook-panic");
             }
         }
-        let payload = format!("cat={} plugins={} path={} pq={}", join(base.cat.iter(), ","),
+        let payload = format!("nv={} cat={} plugins={} path={} pq={}", numeric_variant(), join(base.cat.iter(), ","),
             join(stack.iter().map(|p| plug_wire(p, &pos_ids)), ";"), wire_path(&base.nodes), pq.join(";"));
         run.bump(&format!("stack:{}", join(stack.iter().map(|p| match p { Plug::Numeric { normalize } => format!("N{}", *normalize as u8), Plug::Katakana { min_length, .. } => format!("K{}", min_length) }), "")));
         run.bump(&format!("path-len:{}", (base.nodes.len() / 4) * 4));
